@@ -8,7 +8,7 @@ From CG Require Import Base.Prelude Model.Ast Model.Parser Model.Check Model.Dfa
 From CG Require Import Proofs.CheckSpans Proofs.PipelineSpans Proofs.CapstoneLayout.
 From CG Require Import Model.BashSem Model.Glob Spec.Lang Spec.ScriptRead Spec.Meaning Spec.Domain Spec.Invocations.
 From CG Require Import Proofs.TreeFacts Proofs.BashScript Proofs.BashCodec Proofs.EmbedEndToEnd Proofs.SubChecks
-  Proofs.BashMeaningSub Proofs.BashMeaningMix Proofs.StripFacts Proofs.GlobFacts Proofs.CapstoneMeaning.
+  Proofs.BashMeaningSub Proofs.BashMeaningMix Proofs.StripFacts Proofs.GlobFacts Proofs.SubBridge Proofs.CapstoneMeaning.
 From CG Require Import Spec.Choice Proofs.CheckProvenance Proofs.CapstoneCommands Proofs.CapstoneChoice.
 From CG Require Import Proofs.CapstoneTotalRun.
 From CGgen Require Import Consts.
@@ -83,14 +83,18 @@ Print Assumptions C14_compile_bash_definition_order.
       description and with the empty description (witness [cmd (x a | y a "");]);
     - (A): [name_ok] (the command name is a bash function name), [no_nl] of the signature,
       [body_ok] (no command body has a lone closing brace line) -- C07 leaves;
-    - (B): [mix_tree] (leaves are literals, commands, undefined nonterminals and within-word
-      expressions made of literals: the proved layers of C01), [subs_deterministic c] (two
-      within-word automata with the same language reached from one state lead to the same state;
-      decidable sufficient form [subs_single]; not implied by the ambiguity check, cf. C02's known
-      class of within-word automata merged up to input order), the decided domain [C01_domain], and
-      the environment: case-sensitive completion, the same word breaks on both sides and
-      [breaks_ok], a plain printable typed word, command outputs that agree with the environment
-      of the specification, an unambiguous line. *)
+    - (B): the WHOLE decided domain of C01 ([C01_bash_meaning], no [greedy_shadow] hypothesis, commands
+      and nonterminals inside words included): the shape hypothesis [sub_tree] of that theorem is
+      discharged here for every PARSED text compiled for bash ([parsed_sub_tree]: no distributive
+      description and no word inside a word by [check_tree]; no completion-side command because the
+      parser builds commands with the flag off and [specialize] sets it only for zsh).  Remaining:
+      [subs_deterministic c] (two within-word automata with the same language reached from one state
+      lead to the same state; decidable sufficient form [subs_single]; not implied by the ambiguity
+      check, cf. C02's known class of within-word automata merged up to input order), the decided
+      domain [C01_domain] and [C01_env_ok], and the environment: case-sensitive completion, the same
+      word breaks on both sides and [breaks_ok], a plain printable typed word, command outputs that
+      agree with the environment of the specification, an unambiguous line.  The reply contains
+      every required candidate and only allowed ones. *)
 Theorem C01_compile_bash_meaning :
   forall o builtins text s,
     compile_bash o builtins text = Ok s ->
@@ -108,8 +112,8 @@ Theorem C01_compile_bash_meaning :
           /\ tables_describe c (o_main_lits o) (o_sub_lits o) a
           /\ (forall w, accepts_items c w <-> denotes (v_expr v) w))
       /\ (forall (benv : BashSem.env) (en : Meaning.env) ws p,
-          mix_tree (v_expr v) = true -> lits_nodup o = true -> subs_deterministic c ->
-          C01_domain (v_expr v) = true ->
+          lits_nodup o = true -> subs_deterministic c ->
+          C01_domain (v_expr v) = true -> C01_env_ok (v_expr v) en = true ->
           BashSem.e_ignore_case benv = false -> BashSem.e_wordbreaks benv = Meaning.e_wordbreaks en ->
           breaks_ok (BashSem.e_wordbreaks benv) = true -> plain p = true -> printable_str p = true ->
           (forall cm cid, Tables.index_of cm (a_commands a) = Some cid ->
@@ -119,7 +123,7 @@ Theorem C01_compile_bash_meaning :
           | None => exists log, run_from Repaired (d_start (c_main c)) a benv ws p = Ok (mkresult 1 [] log)
           | Some (req, al) =>
               exists reply log, run_from Repaired (d_start (c_main c)) a benv ws p = Ok (mkresult 0 reply log)
-                                /\ (forall x, In x reply <-> In x req) /\ incl req al
+                                /\ incl req reply /\ incl reply al
           end).
 Proof. exact compile_bash_meaning. Qed.
 Check C01_compile_bash_meaning :
@@ -139,8 +143,8 @@ Check C01_compile_bash_meaning :
           /\ tables_describe c (o_main_lits o) (o_sub_lits o) a
           /\ (forall w, accepts_items c w <-> denotes (v_expr v) w))
       /\ (forall (benv : BashSem.env) (en : Meaning.env) ws p,
-          mix_tree (v_expr v) = true -> lits_nodup o = true -> subs_deterministic c ->
-          C01_domain (v_expr v) = true ->
+          lits_nodup o = true -> subs_deterministic c ->
+          C01_domain (v_expr v) = true -> C01_env_ok (v_expr v) en = true ->
           BashSem.e_ignore_case benv = false -> BashSem.e_wordbreaks benv = Meaning.e_wordbreaks en ->
           breaks_ok (BashSem.e_wordbreaks benv) = true -> plain p = true -> printable_str p = true ->
           (forall cm cid, Tables.index_of cm (a_commands a) = Some cid ->
@@ -150,7 +154,7 @@ Check C01_compile_bash_meaning :
           | None => exists log, run_from Repaired (d_start (c_main c)) a benv ws p = Ok (mkresult 1 [] log)
           | Some (req, al) =>
               exists reply log, run_from Repaired (d_start (c_main c)) a benv ws p = Ok (mkresult 0 reply log)
-                                /\ (forall x, In x reply <-> In x req) /\ incl req al
+                                /\ incl req reply /\ incl reply al
           end).
 Print Assumptions C01_compile_bash_meaning.
 
@@ -164,7 +168,7 @@ Example ex_C01_capstone_inhabited :
   is_ok (compile_bash exm_o builtins exm_text) = true
   /\ lits_nodup exm_o = true
   /\ match compile (pick_table (o_pops exm_o)) (o_fuel exm_o) builtins exm_text Bash with
-     | Ok (v, c) => mix_tree (v_expr v) = true /\ C01_domain (v_expr v) = true /\ subs_single c = true
+     | Ok (v, c) => SubBridge.sub_tree (v_expr v) = true /\ C01_domain (v_expr v) = true /\ subs_single c = true
                     /\ name_ok (v_command v)
      | _ => False
      end.
